@@ -100,13 +100,22 @@ def gen_cases(rng, tier):
                       'hashpath': hashpath, 'tfp': tfp, 'tfp_fields': tfp_fields, 'fprops': fprops,
                       # a later step of the same flow that edits the rows in place (what was dumped is what entered the dumper),
                       # and the dump read back through the documented env:// form of the source
-                      'mutate_after': rng.chance(0.3), 'via_env': rng.chance(0.25)})
+                      'mutate_after': rng.chance(0.3), 'via_env': rng.chance(0.25),
+                      # missing-value tokens declared by the resources' schemas: nulls must come back as nulls, and an empty
+                      # string stays an empty string when '' is not among the tokens
+                      'mv': rng.pick([None, None, ['n/a'], ['', 'NA'], ['-', 'n/a']])})
     # systematically: strings with blanks, tabs and line breaks at their ends, through every way of writing and reading back
     pad_rows = [{'alpha': ' pad ', 'beta': '\ttab'}, {'alpha': 'x\n', 'beta': '   '}, {'alpha': 'plain', 'beta': None}]
     for fmt in ('csv', 'json'):
         for z, env in ((True, False), (False, False), (False, True)):
             cases.append({'kind': 'roundtrip', 'pkg': [{'name': 'res0', 'fields': [['alpha', 'string'], ['beta', 'string']], 'rows': rows_enc(pad_rows)}],
                           'format': fmt, 'zip': z, 'hashpath': False, 'tfp': False, 'tfp_fields': [], 'fprops': [], 'mutate_after': False, 'via_env': env})
+    for fmt in ('csv', 'json'):
+        for mv in (['n/a'], ['-', 'n/a'], ['', 'NA']):
+            rows_ = [{'alpha': 1, 'beta': 'x'}, {'alpha': None, 'beta': None}, {'alpha': 3, 'beta': ''}]
+            cases.append({'kind': 'roundtrip', 'pkg': [{'name': 'res0', 'fields': [['alpha', 'integer'], ['beta', 'string']], 'rows': rows_enc(rows_)}],
+                          'format': fmt, 'zip': False, 'hashpath': False, 'tfp': False, 'tfp_fields': [], 'fprops': [], 'mutate_after': False,
+                          'via_env': False, 'mv': mv})
     # the CSV layer alone: the model of Python's csv against the csv module, on tables and on arbitrary texts
     alpha = ['a', 'b', ',', '"', '\r', '\n', ' ', 'é']
     for i in range({'quick': 60, 'thorough': 600, 'search': 100}[tier]):
@@ -128,7 +137,9 @@ def gen_cases(rng, tier):
 
 
 def witnesses():
-    return [{'kind': 'roundtrip', 'pkg': [{'name': 'res0', 'fields': [['s', 'string'], ['i', 'integer'], ['n', 'number']],
+    return [{'kind': 'roundtrip', 'pkg': [{'name': 'res0', 'fields': [['s', 'string']], 'rows': rows_enc([{'s': 'x' * 140000}])}],
+             'format': 'csv', 'zip': False, 'hashpath': False, 'tfp': False, 'witness_of': 'C03.csv_field_over_128k'},
+            {'kind': 'roundtrip', 'pkg': [{'name': 'res0', 'fields': [['s', 'string'], ['i', 'integer'], ['n', 'number']],
                                             'rows': rows_enc([{'s': 'x', 'i': 1, 'n': decimal.Decimal('2.5')}])}],
              'format': 'json', 'zip': False, 'hashpath': False, 'tfp': False, 'witness_of': 'C03.json_field_order'},
             {'kind': 'roundtrip', 'pkg': [{'name': 'res0', 'fields': [['s', 'string']], 'rows': rows_enc([{'s': 'x\r\ny'}])}],
@@ -167,7 +178,7 @@ def run_impl(case):
                 if rn == r['name'] and fn == nm:
                     f.update(copy.deepcopy(pr))
             fields.append(f)
-        res.append({'name': r['name'], 'fields': fields, 'rows': rows_dec(r['rows'])})
+        res.append({'name': r['name'], 'fields': fields, 'rows': rows_dec(r['rows']), 'missingValues': case.get('mv')})
     kw = {'format': case['format'], 'add_filehash_to_path': case['hashpath']}
     if case['tfp']:
         kw['temporal_format_property'] = 'outputFormat'
@@ -245,7 +256,7 @@ def expected_rows(case):
     for r in case['pkg']:
         rows = []
         for row in rows_dec(r['rows']):
-            rows.append(dict((k, (None if v == '' else v)) for k, v in row.items()))
+            rows.append(dict((k, (None if (v == '' and '' in (case.get('mv') or [''])) else v)) for k, v in row.items()))
         out.append(rows)
     return out
 
@@ -332,6 +343,15 @@ def finding(case, out, failure):
     if case['format'] == 'json' and failure and ('load of the dumped package failed' in failure or 'loaded as' in failure):
         if any([n for n, _ in r['fields']] != sorted(n for n, _ in r['fields']) for r in case['pkg']) and not independent_decode(case, out):
             return 'C03.json_field_order'
+    if case['format'] == 'csv' and failure and 'field larger than field limit' in failure:
+        big = any(isinstance(v, str) and len(v) > 131072 for r in case['pkg'] for row in rows_dec(r['rows']) for v in row.values())
+        old = csv.field_size_limit(10 ** 9)
+        try:
+            ok = big and not independent_decode(case, out)
+        finally:
+            csv.field_size_limit(old)
+        if ok:
+            return 'C03.csv_field_over_128k'
     if case['format'] == 'csv' and failure and 'loaded as' in failure and not independent_decode(case, out):
         for r in case['pkg']:
             for row in rows_dec(r['rows']):
